@@ -175,6 +175,8 @@ def run_cases(ctx, mon, ncases, body, wall=None, only_case=None):
             # wall clock: inconclusive for this case, never a verdict; a few of them end the shard's workload
             ctx.aborted['case-wall-clock-alarm'] += 1
             ctx.extra['n_case_alarms'] = ctx.extra.get('n_case_alarms', 0) + 1
+            ctx.extra.setdefault('case_alarms', []).append({'shard': ctx.shard, 'case': case,
+                                                            'last_ops': [o.get('m') for o in (ctx.history or [])[-6:]]})
             mon.depth = 0
             if ctx.extra['n_case_alarms'] >= 3:
                 ctx.extra['stopped_after_case_alarms'] = True
@@ -363,6 +365,78 @@ def small_scope_values(L, max_applies=2, shard=0, nshards=1, cls=None):
             if cls is not None and cls is not L.AnsiString:
                 v = cls(v)
             yield v, seq
+
+
+# Every history of up to `depth` formatting operations on a three-character text: the operation alphabet is
+# apply_formatting of red / blue / bold over each of the 6 non-empty ranges with either topmost value (36) and
+# remove_formatting of red / blue / bold / everything over each range (24).  The tree is walked depth-first on
+# copies, so every node's last operation is an outermost call judged by the contracts that are installed.
+TRIE_TEXT = 'abc'
+TRIE_CODES = ['31', '34', '1']
+
+
+def trie_ops():
+    n = len(TRIE_TEXT)
+    rs = [(a, b) for a in range(n) for b in range(a + 1, n + 1)]
+    ops = [('apply', c, a, b, top) for c in TRIE_CODES for (a, b) in rs for top in (True, False)]
+    ops += [('remove', c, a, b, None) for c in TRIE_CODES + [None] for (a, b) in rs]
+    return ops
+
+
+def trie_walk(L, depth, shard=0, nshards=1, visit=None, cls=None, mon=None, visit_depth=None):
+    """visit(value, path) at every node below the root; the first operation is dealt round-robin over the shards (a
+    partition of the whole tree).  With `mon` given the walk's own calls are made inside mon.quiet() (only what
+    `visit` does is judged); without it every operation of the walk is an outermost, judged call.  The value handed
+    to `visit` is a copy.  Returns the number of nodes visited."""
+    ops = trie_ops()
+    count = [0]
+
+    def step(v, op):
+        w = L.AnsiString(v)
+        kind, c, a, b, top = op
+        if kind == 'apply':
+            w.apply_formatting(c, a, b, topmost=top)
+        else:
+            w.remove_formatting(c, a, b)
+        return w
+
+    def rec(v, path, d):
+        for i, op in enumerate(ops):
+            if d == 0 and i % nshards != shard:
+                continue
+            if mon is not None:
+                with mon.quiet():
+                    w = step(v, op)
+                    x = (cls or L.AnsiString)(w) if visit is not None else None
+            else:
+                w = step(v, op)
+                x = (cls or L.AnsiString)(w) if visit is not None else None
+            count[0] += 1
+            p2 = path + [op]
+            if visit is not None and (visit_depth is None or d < visit_depth):
+                visit(x, p2)
+            if d + 1 < depth:
+                rec(w, p2, d + 1)
+
+    if mon is not None:
+        with mon.quiet():
+            root = L.AnsiString(TRIE_TEXT)
+    else:
+        root = L.AnsiString(TRIE_TEXT)
+    rec(root, [], 0)
+    return count[0]
+
+
+def trie_case(ctx, mon, tier, qdepth, tdepth, visit=None, judged_walk=False, cls=None, visit_depth=None):
+    """run the walk for this tier and describe it in evidence"""
+    depth = tdepth if tier == 'thorough' else qdepth
+    n = trie_walk(ctx.L, depth, ctx.shard, ctx.extra.get('nshards', 1), visit=visit, cls=cls,
+                  mon=None if judged_walk else mon, visit_depth=visit_depth)
+    ctx.extra['op_tree'] = ('every history of up to %d operations on %r out of %d (apply_formatting of %s x 6 ranges x '
+                            'topmost T/F, remove_formatting of each / all x 6 ranges), first operation dealt over the '
+                            'shards' % (depth, TRIE_TEXT, len(trie_ops()), TRIE_CODES))
+    ctx.extra['n_op_tree_nodes'] = ctx.extra.get('n_op_tree_nodes', 0) + n
+    return n
 
 
 def small_scope_on(ctx, tier):
